@@ -71,7 +71,7 @@ func (b *B) Eq(rule, construct, where string, got *RF, env *SpecEnv, spec string
 			b.R.Undecided(rule, construct, where, "extracted value contains an unanalysed part: "+o)
 			return
 		}
-		if got.Equal(want) || b.X.S.BoolEquiv(got, want) {
+		if got.Equal(want) || b.X.S.BoolEquiv(got, want) || b.X.EquivByCases(got, want, 0) {
 			b.R.OK(rule, construct, where, "≡ "+spec)
 			ok = true
 		} else {
@@ -87,7 +87,7 @@ func (b *B) EqRF(rule, construct, where string, got, want *RF, what string) bool
 		b.R.Undecided(rule, construct, where, "extracted value contains an unanalysed part: "+o)
 		return false
 	}
-	if got.Equal(want) {
+	if got.Equal(want) || b.X.EquivByCases(got, want, 0) {
 		b.R.OK(rule, construct, where, what)
 		return true
 	}
@@ -592,6 +592,21 @@ func (x *Extractor) SimplifyUnder(r *RF, assume []Assumption) *RF {
 				return args[2]
 			}
 		}
+		// an assumed atomic condition occurring inside a boolean structure
+		if isCmpName(at.Name) || at.Name == "lookupok" || at.Kind == "var" {
+			self := x.S.Fn(at.Name, args...)
+			if at.Kind == "var" {
+				self = x.S.atomRF(at.ID)
+			}
+			for _, a := range assume {
+				if a.Cond != nil && a.Cond.Equal(self) {
+					if a.True {
+						return x.S.True()
+					}
+					return x.S.False()
+				}
+			}
+		}
 		return nil
 	})
 }
@@ -869,4 +884,50 @@ func (b *B) CheckSwap(rule, fnName string) {
 		}
 		b.R.Floor(rule, "parallel slices swapped by "+fnName, n, 2)
 	})
+}
+
+// EquivByCases: a ≡ b by case analysis on the conditions of the gating
+// functions occurring in them (each condition treated as an independent
+// boolean; a condition that becomes decidable after earlier choices is
+// resolved). Makes the nesting order of if-then-else irrelevant.
+func (x *Extractor) EquivByCases(a, b *RF, depth int) bool {
+	if a.Equal(b) {
+		return true
+	}
+	if depth > 10 {
+		return false
+	}
+	// first ite condition found in either side
+	var cond *RF
+	for _, r := range []*RF{a, b} {
+		for _, at := range r.Atoms(true) {
+			if at.Name == "ite" && len(at.Args) == 3 {
+				cond = at.Args[0]
+				break
+			}
+		}
+		if cond != nil {
+			break
+		}
+	}
+	if cond == nil {
+		return x.S.BoolEquiv(a, b)
+	}
+	// split on an atomic condition (a leaf of the boolean structure)
+	leaf := cond
+	for {
+		at := leaf.SingleAtom()
+		if at != nil && (at.Name == "land" || at.Name == "lor" || at.Name == "not") {
+			leaf = at.Args[0]
+			continue
+		}
+		break
+	}
+	for _, truth := range []bool{true, false} {
+		as := []Assumption{{Cond: leaf, True: truth}}
+		if !x.EquivByCases(x.SimplifyUnder(a, as), x.SimplifyUnder(b, as), depth+1) {
+			return false
+		}
+	}
+	return true
 }
